@@ -508,7 +508,10 @@ func c13Guard(f func() string) (res string) {
 }
 
 func c13Reads(tb *boltz.TypedBucket, f string, out *[]string) {
-	p := "f:" + c13Wire(f) + ":"
+	c13ReadsP("f:"+c13Wire(f)+":", tb, f, out)
+}
+
+func c13ReadsP(p string, tb *boltz.TypedBucket, f string, out *[]string) {
 	add := func(name string, fn func() string) { *out = append(*out, p+name+"="+c13Guard(fn)) }
 	var raw []byte
 	add("k", func() string {
@@ -574,7 +577,7 @@ func c13Reads(tb *boltz.TypedBucket, f string, out *[]string) {
 		return c13TimeText(*t)
 	})
 	add("sl", func() string { return c13ListText(tb.GetStringList(f)) })
-	// GetList allocates as many elements as the stored size says: a size that no generated value has
+	// GetList allocates as many elements as the stored size says: a size that no generated value has (> 2^20)
 	// is reported instead of being materialised (it is a disagreement with the model in any case)
 	if n := c13HugeList(tb.Bucket.Bucket([]byte(f))); n != 0 {
 		*out = append(*out, fmt.Sprintf("%sm=huge:%d", p, n), fmt.Sprintf("%sl=huge:%d", p, n))
@@ -596,7 +599,7 @@ func c13Reads(tb *boltz.TypedBucket, f string, out *[]string) {
 	})
 }
 
-// c13HugeList looks for a stored list size above 65536 anywhere below the bucket (raw bytes, both
+// c13HugeList looks for a stored list size above 1<<20 anywhere below the bucket (raw bytes, both
 // byte orders are unreasonable then).
 func c13HugeList(bk *bbolt.Bucket) int64 {
 	if bk == nil {
@@ -756,6 +759,8 @@ func c13Exec(line string) string {
 		return "eq=0"
 	case "e":
 		return c13ExecE(f[1:])
+	case "h":
+		return c13ExecH(f[1:])
 	}
 	return "bad-case"
 }
